@@ -778,6 +778,33 @@ def call_scripts(rng, thorough):
             sc.expect(xs + ys)
             sc.tags = ["spread-list", a, b, "ok"]
             out.append(sc.source({"tags": sc.tags}))
+    # items are evaluated left to right and a spread contributes the elements its list has WHEN IT IS REACHED: a later sibling
+    # that changes that list (through an alias, by a call) does not change what the spread contributed; an earlier one does
+    for n in range(1, 4):
+        xs = list(range(1, n + 1))
+        for where in ("list", "call"):
+            for order in ("spread-first", "mutator-first", "between"):
+                sc = L.Script()
+                sc.stmt(f"xs := {L.lit(xs)}")
+                sc.stmt("fn bump(l) { l[0] = 99; return 0; }")
+                sc.stmt("fn grow(l) { l += [7]; return 0; }")
+                sc.stmt("fn f(..r) { return r; }")
+                items, want = {
+                    "spread-first": ("xs.., bump(xs)", xs + [0]),
+                    "mutator-first": ("bump(xs), xs..", [0, 99] + xs[1:]),
+                    "between": ("xs.., bump(xs), xs..", xs + [0, 99] + xs[1:]),
+                }[order]
+                expr = f"[{items}]" if where == "list" else f"f({items})"
+                sc.stmt(f"print({expr})")
+                sc.expect(want)
+                sc.stmt("print(xs)")
+                sc.expect([99] + xs[1:])
+                sc.stmt(f"ys := {L.lit(xs)}")
+                e2 = "[ys.., grow(ys), ys..]" if where == "list" else "f(ys.., grow(ys), ys..)"
+                sc.stmt(f"print({e2})")
+                sc.expect(xs + [0] + xs)          # `l += [7]` rebinds the parameter: the caller's list is untouched
+                sc.tags = ["spread-order", where, order, n, "ok"]
+                out.append(sc.source({"tags": sc.tags}))
     for bad in ["1", "\"ab\"", "null", "{\"a\": 1}", "true"]:
         for form in ["print([1, q..])", "print([q..])", "f := fn (..r) { return r; }\nprint(f(1, q..))"]:
             sc = L.Script()
